@@ -28,6 +28,21 @@ func (v *Val) UnmarshalMsg(b []byte) ([]byte, error) {
 	return nil, nil
 }
 
+// Scratch is a caller-owned path buffer that is re-used for every call, the way a caller with a scratch buffer would:
+// the bytes of an earlier path are overwritten by the next one, so nothing the trie keeps may point into it.
+type Scratch struct{ b [80]byte }
+
+func (s *Scratch) P(p string) util.Path {
+	if len(p) > len(s.b) {
+		return util.Path(p)
+	}
+	for i := range s.b { // what is left of the previous path is wiped as well
+		s.b[i] = 'f'
+	}
+	n := copy(s.b[:], p)
+	return util.Path(s.b[:n:n])
+}
+
 func NewMPT(db util.NodeDB, version int64, root util.Key) *util.MerklePatriciaTrie {
 	return util.NewMerklePatriciaTrie(db, util.Sequence(version), root, statecache.NewEmpty())
 }
@@ -201,8 +216,9 @@ func IterAll(m util.MerklePatriciaTrieI) (map[string][]byte, error) {
 // CheckMap compares the trie with the model: every live path, a probe set of absent paths, full iteration.
 // Returns "" or a description of the first disagreement.
 func CheckMap(m util.MerklePatriciaTrieI, model map[string][]byte, absent []string) string {
+	var sc Scratch
 	for k, v := range model {
-		d, err := m.GetNodeValueRaw(util.Path(k))
+		d, err := m.GetNodeValueRaw(sc.P(k))
 		if err != nil || !bytes.Equal(d, v) {
 			return fmt.Sprintf("lookup %q = %q, %v; model has %q", k, d, err, v)
 		}
@@ -214,7 +230,7 @@ func CheckMap(m util.MerklePatriciaTrieI, model map[string][]byte, absent []stri
 		if _, ok := model[k]; ok {
 			continue
 		}
-		d, err := m.GetNodeValueRaw(util.Path(k))
+		d, err := m.GetNodeValueRaw(sc.P(k))
 		if !errors.Is(err, util.ErrValueNotPresent) {
 			return fmt.Sprintf("lookup of absent path %q = %q, %v; want ErrValueNotPresent", k, d, err)
 		}
